@@ -1436,7 +1436,7 @@ TAGGY = ["first run [tune-metric]: {epoch 1}", "[tune-metric]: {", "x [tune-metr
 
 def gen_resume_plans(rng):
     plans = []
-    for late in (False, True, rng.random() < 0.5):
+    for idx, late in enumerate((False, True, rng.random() < 0.5)):
         ep = [0]
 
         def rep():
@@ -1445,7 +1445,9 @@ def gen_resume_plans(rng):
             if rng.random() < 0.4:
                 kw["info"] = {rng.choice(TAGGY): [rng.choice(TAGGY)]}
             return kw
-        run1 = [rep() for _ in range(rng.randint(1, 3))]
+        # trial 0: paused after exactly ONE report (promotion at grace period 1): the resumed run's first report
+        # carries the same counter value 0 as the last report of run 1 (the counter restarts in every process)
+        run1 = [rep() for _ in range(1 if idx == 0 else rng.choice([1, 1, 2, 3]))]
         late_kw = rep() if late else None
         run2 = [rep() for _ in range(rng.randint(1, 3))]
         plans.append(dict(run1=run1, late=late_kw, run2=run2))
@@ -1570,6 +1572,68 @@ def name_collision_probe(ctx):
                               signature=dict(component="Reporter", defect="metric_name_collides_with_parameter", name=name))
 
 
+# --------------------------------------------------------------------------
+# several Reporter instances (processes) appending to one stream: counters restart at 0
+# --------------------------------------------------------------------------
+def gen_multi_case(rng):
+    procs = []
+    for _ in range(rng.randint(2, 4)):
+        n = rng.choice([1, 1, 1, 2, 3])
+        procs.append(dict(add_time=rng.random() < 0.8,
+                          reports=[[["epoch", ["int", rng.randint(0, 3)]]] + gen_call(rng, "ok")[1][:2] for _ in range(n)],
+                          noise=rng.choice(["", "resumed from checkpoint\n", "x } [tune-metri", "\n"])))
+    return dict(procs=procs, order=rng.choice(["sequential", "sequential", "alternating"]))
+
+
+def multi_reporter_stream(ctx, cases):
+    """outputs of several Reporter objects on one stream, parsed by retrieve in one go: every report of every
+    instance arrives, in stream order; the counter of each instance is 0,1,2,..."""
+    from syne_tune.report import Reporter, retrieve
+    for c in cases:
+        case = dict(kind="multi", multi=c)
+        buf = io.StringIO()
+        sent, counters = [], []
+        with contextlib.redirect_stdout(buf):
+            reps = [Reporter(add_time=p["add_time"]) for p in c["procs"]]
+            todo = [list(p["reports"]) for p in c["procs"]]
+            done = [0] * len(reps)
+
+            def one(i):
+                items = todo[i].pop(0)
+                reps[i](**{k: build(v) for k, v in dict((k, v) for k, v in items).items()})
+                sent.append({k: expect(v) for k, v in dict((k, v) for k, v in items).items()})
+                counters.append(done[i])
+                done[i] += 1
+            if c["order"] == "sequential":
+                for i, p in enumerate(c["procs"]):
+                    sys.stdout.write(p["noise"])
+                    while todo[i]:
+                        one(i)
+            else:
+                while any(todo):
+                    for i in range(len(reps)):
+                        if todo[i]:
+                            one(i)
+        ctx.count(("multi", c), nontrivial=True)
+        ctx.traces_validated += 1
+        ctx.h("multi_reporter", "%s_%d" % (c["order"], len(c["procs"])))
+        try:
+            got = retrieve(read_like_local_backend(buf.getvalue()))
+        except Exception as e:  # noqa
+            ctx.violation("property", "retrieve raised %s on the concatenated output of %d Reporter instances" % (type(e).__name__, len(reps)),
+                          case=case, signature=dict(component="retrieve", defect="multi_process_stream", exception=type(e).__name__))
+            continue
+        user = [{k: v for k, v in d.items() if k not in RESERVED} for d in got]
+        iters = [d.get("st_worker_iter") for d in got]
+        if not (len(user) == len(sent) and all(same(a, b) for a, b in zip(user, sent))) or iters != counters:
+            ctx.violation("property", "%d Reporter instances (counters restart at 0) wrote %d reports with counters %r to one stream; "
+                          "retrieve returned %d reports with counters %r: sent %r, received %r"
+                          % (len(reps), len(sent), counters, len(user), iters, sent, user), case=case,
+                          signature=dict(component="retrieve", defect="multi_process_stream_reports_lost_or_changed"))
+    if cases:
+        ctx.sample(dict(kind="multi_reporter_stream", case=cases[0]))
+
+
 def prefix_cases(ctx, rng, lines_cases, lines_meta):
     """retrieve() on every prefix of a stream (a reader that sees the file while it grows): either exactly the
     complete reports so far, or an exception caused by the cut line — never a wrong or missing dictionary"""
@@ -1650,6 +1714,9 @@ def run(ctx, replay=None):
         elif replay.get("kind") == "name":
             name_collision_probe(ctx)
             return
+        elif replay.get("kind") == "multi":
+            multi_reporter_stream(ctx, [replay["multi"]])
+            return
         elif replay.get("kind") == "poll":
             polling_stream(ctx, [[tuple(c) for c in replay["chunks"]]])
             return
@@ -1685,6 +1752,7 @@ def run(ctx, replay=None):
         polling_stream(ctx, gen_poll_streams(rng))
         gated_stream(ctx, gen_gate_plans(rng))
         resume_stream(ctx, gen_resume_plans(rng))
+        multi_reporter_stream(ctx, [gen_multi_case(rng) for _ in range(ctx.n(80, 1500))])
         encoded_stream(ctx, [gen_enc_case(rng) for _ in range(ctx.n(120, 2000))])
         ascii_stdout_backend(ctx, [dict(epoch=1, name="caf\u00e9", tags=["\u2713", "\u4e2d\u6587"]),
                                    {"epoch": 2, "name": "na\u00efve \U0001F600", "k \u00e4": {"\u20ac": rng.choice(UNI[:4])}}])
